@@ -822,6 +822,9 @@ func (w *World) setRelationBatchNoNotify(filter Filter, comp ID, target Entity, 
 			continue
 		}
 
+		// Check before the shortcut for equal targets, which would hide a missing or non-relation component.
+		w.checkRelation(arch, comp)
+
 		if arch.RelationTarget == target {
 			continue
 		}
